@@ -55,6 +55,37 @@ type stateField struct {
 }
 
 func ruleStateF13(c *Ctx) {
+	leavesHelpers = func(caller, callee *ssa.Function) bool {
+		root := caller
+		for root.Parent() != nil {
+			root = root.Parent()
+		}
+		return c.helpersOf(root)[callee] || c.helpersOf(caller)[callee]
+	}
+	leavesHelperArgs = func(p *ssa.Parameter) ([]ssa.Value, bool) {
+		g := p.Parent()
+		if g == nil || g.Parent() != nil || !c.P.onlyCalledFrom(g, c.P.allFuncs) {
+			return nil, false
+		}
+		idx := -1
+		for i, q := range g.Params {
+			if q == p {
+				idx = i
+			}
+		}
+		var args []ssa.Value
+		for _, site := range c.P.staticSites[g] {
+			if strings.Contains(site.Parent().Synthetic, "wrapper") {
+				continue
+			}
+			if _, isCall := site.(*ssa.Call); !isCall || idx < 0 || idx >= len(site.Common().Args) || !leavesHelpers(site.Parent(), g) {
+				return nil, false
+			}
+			args = append(args, site.Common().Args[idx])
+		}
+		return args, len(args) > 0
+	}
+	defer func() { leavesHelpers, leavesHelperArgs = nil, nil }()
 	var roots []*ssa.Function
 	roots = append(roots, transformImpls(c)...)
 	roots = append(roots, c.P.Fn(aParse))
@@ -281,6 +312,10 @@ func ruleStateF13(c *Ctx) {
 // leavesWithin: every leaf of the backward slice of v is a constant, immutable configuration, or one of the allowed
 // values. Calls are followed through their arguments (callees in the module are assumed to read only their arguments
 // and state that this rule examines separately).
+// hooks into the region machinery, set by ruleStateF13
+var leavesHelpers func(caller, callee *ssa.Function) bool
+var leavesHelperArgs func(p *ssa.Parameter) ([]ssa.Value, bool)
+
 func leavesWithin(v ssa.Value, allowed map[ssa.Value]bool, mutable map[string]*stateField, okFields map[string]bool) (bool, string) {
 	seen := map[ssa.Value]bool{}
 	bad := ""
@@ -303,18 +338,61 @@ func leavesWithin(v ssa.Value, allowed map[ssa.Value]bool, mutable map[string]*s
 		case *ssa.Global:
 			return true // package-level tables; written per record they would be reported as state themselves
 		case *ssa.Parameter:
+			// a parameter of a private helper stands for the arguments of its call sites
+			if leavesHelperArgs != nil {
+				if args, isHelper := leavesHelperArgs(x); isHelper {
+					for _, a := range args {
+						if !walk(a, d+1) {
+							return false
+						}
+					}
+					return true
+				}
+			}
 			bad = "parameter " + x.Name()
 			return false
 		case *ssa.FreeVar:
 			bad = "captured " + x.Name()
 			return false
 		case *ssa.Alloc:
-			for _, ref := range *x.Referrers() {
-				if st, ok := ref.(*ssa.Store); ok && st.Addr == ssa.Value(x) && !walk(st.Val, d+1) {
-					return false
+			// everything stored into the local, also field by field / element by element (a composite literal is built
+			// by stores through FieldAddr / IndexAddr of the local)
+			var intoLocal func(addr ssa.Value, dd int) bool
+			intoLocal = func(addr ssa.Value, dd int) bool {
+				if addr.Referrers() == nil || dd > 4 {
+					return true
 				}
+				for _, ref := range *addr.Referrers() {
+					switch r := ref.(type) {
+					case *ssa.Store:
+						if r.Addr == addr && !walk(r.Val, d+1) {
+							return false
+						}
+					case *ssa.FieldAddr:
+						if r.X == addr && !intoLocal(r, dd+1) {
+							return false
+						}
+					case *ssa.IndexAddr:
+						if r.X == addr && !intoLocal(r, dd+1) {
+							return false
+						}
+					}
+				}
+				return true
 			}
-			return true
+			return intoLocal(x, 0)
+		case *ssa.Call:
+			// a private helper of this function (region.go): what it returns, with its parameters standing for the arguments
+			if g := x.Common().StaticCallee(); g != nil && leavesHelpers != nil && leavesHelpers(x.Parent(), g) && d < 40 {
+				for ri := 0; ri < g.Signature.Results().Len(); ri++ {
+					for _, rv := range returnedValues(g, ri) {
+						if !walk(rv.Val, d+1) {
+							return false
+						}
+					}
+				}
+				return true // the helper's parameters are mapped to the arguments where the walk meets them
+			}
 		case *ssa.UnOp:
 			if x.Op == token.MUL {
 				if fa, ok := strip(x.X).(*ssa.FieldAddr); ok {
@@ -399,6 +477,11 @@ func (c *Ctx) keyDeterminedCache(f *stateField, all map[string]*stateField, acce
 		n++
 		key := copySource(mu.Key)
 		allowed := map[ssa.Value]bool{key: true, mu.Key: true}
+		// a merged key that is an injective encoding of a list of strings (C06.R1: length-prefixed) determines that list:
+		// a value derived from the list is derived from the key
+		for _, src := range c.injectiveKeySources(key) {
+			allowed[src] = true
+		}
 		if ok, bad := leavesWithin(mu.Value, allowed, all, withField(accepted, f.name)); !ok {
 			return false, "a stored value depends on " + bad + ", which is not the key"
 		}
@@ -625,4 +708,44 @@ func init() {
 	register("C03", "C04.R5", ruleC04R5)
 	register("C02", "C05.R3", ruleC05R3)   // "retransmitted, oldest first": leftovers are sorted by id
 	register("C19", "C03.R10", ruleC03R10) // the persistent byte gauge moves only with the files
+}
+
+// injectiveKeySources: if key is the accumulator of a key-building loop over a []string that C06.R1 accepts as injective
+// (directly, or as the result of a helper that returns such an accumulator), the []string it encodes
+func (c *Ctx) injectiveKeySources(key ssa.Value) []ssa.Value {
+	var out []ssa.Value
+	key = strip(key)
+	for i := 0; i < 4; i++ {
+		if cv, ok := key.(*ssa.Convert); ok {
+			key = strip(cv.X)
+			continue
+		}
+		if sl, ok := key.(*ssa.Slice); ok {
+			key = strip(sl.X)
+			continue
+		}
+		break
+	}
+	if c.keyLoopsMemo == nil {
+		c.keyLoopsMemo = findKeyLoops(c)
+	}
+	for _, kl := range c.keyLoopsMemo {
+		if ok, _ := lengthPrefixed(kl); !ok {
+			continue
+		}
+		if ssa.Value(kl.acc) == key {
+			out = append(out, kl.source)
+		}
+		// the helper form: key = helper(buf, list) where the helper returns the accumulator of its loop over a parameter
+		if cl, ok := key.(*ssa.Call); ok && cl.Common().StaticCallee() == kl.fn {
+			if prm, ok := kl.source.(*ssa.Parameter); ok {
+				for pi, q := range kl.fn.Params {
+					if q == prm && pi < len(cl.Common().Args) {
+						out = append(out, strip(cl.Common().Args[pi]))
+					}
+				}
+			}
+		}
+	}
+	return out
 }
